@@ -1,5 +1,6 @@
 import Gaftools.Props.C19
 import Gaftools.Props.TieA
+import Gaftools.Props.TieA2
 #print axioms Gaftools.C19.isSecondary_iff
 #print axioms Gaftools.C19.stat_counts
 #print axioms Gaftools.C19.stat_reads_bases
@@ -7,3 +8,5 @@ import Gaftools.Props.TieA
 #print axioms Gaftools.C19.stat_cigar
 #print axioms Gaftools.C19.stat_perm
 #print axioms Gaftools.TieA.isSecondary_gen_eq_model
+#print axioms Gaftools.TieA.bump_gen
+#print axioms Gaftools.TieA.cigarStep_gen
